@@ -1440,8 +1440,8 @@ def run_tolinen_lifted_sharding(ctx, i, rng):
   from flax import nnx
   from flax.core import FrozenDict
   from flax.nnx import bridge
-  axis = i % 2
-  n = 2 + (i // 2) % 2
+  axis = [0, 1, -1, -2][i % 4]
+  n = 2 + (i // 4) % 2
   desc = dict(stack_axis=axis, lanes=n)
   with ctx.case('tolinen.lifted_sharding', i, desc, nontrivial=True):
     kw = dict(variable_axes={'params': axis, 'nnx': None}, split_rngs={'params': True}, metadata_params={nn.PARTITION_NAME: 'layers'})
@@ -1459,7 +1459,8 @@ def run_tolinen_lifted_sharding(ctx, i, rng):
         return V(3, kernel_init=nn.with_partitioning(nn.initializers.lecun_normal(), ('in', 'out')), name='lin')(x)
 
     x = jnp.ones((n, 4))
-    want_names = ('layers', 'in', 'out') if axis == 0 else ('in', 'layers', 'out')
+    pos = axis % 3     # position of the new axis in the rank-3 stacked kernel
+    want_names = tuple(['in', 'out'][:pos] + ['layers'] + ['in', 'out'][pos:])
     vl = PL().init(jax.random.key(i), x)
     spec_l = nn.get_partition_spec(vl)['params']['lin']['kernel']
     ctx.check(tuple(spec_l) == want_names, 'tolinen.lifted_sharding:linen_control', lambda: dict(case=desc, got=tuple(spec_l)))
@@ -1467,7 +1468,7 @@ def run_tolinen_lifted_sharding(ctx, i, rng):
     ctx.op('nn.vmap(ToLinen, metadata_params)')
     kb = vb['params']['lin']['kernel']
     shape = tuple(nn.meta.unbox(kb).shape)
-    ctx.check(shape == ((n, 4, 3) if axis == 0 else (4, n, 3)), 'tolinen.lifted_sharding:stacked_shape', lambda: dict(case=desc, shape=shape))
+    ctx.check(shape == tuple([4, 3][:pos] + [n] + [4, 3][pos:]), 'tolinen.lifted_sharding:stacked_shape', lambda: dict(case=desc, shape=shape))
     spec_b = nn.get_partition_spec(vb)['params']['lin']['kernel']
     ctx.check(tuple(spec_b) == want_names, 'tolinen.lifted_sharding:axis_name_not_added',
               lambda: dict(case=desc, got=tuple(spec_b), want=want_names, value_shape=shape))
@@ -1475,7 +1476,7 @@ def run_tolinen_lifted_sharding(ctx, i, rng):
     yb = PB().apply(vb, x)
     k = np.asarray(nn.meta.unbox(kb))
     b = np.asarray(nn.meta.unbox(vb['params']['lin']['bias']))
-    want_y = np.stack([np.asarray(x)[j] @ np.take(k, j, axis=axis) + np.take(b, j, axis=min(axis, b.ndim - 1)) for j in range(n)])
+    want_y = np.stack([np.asarray(x)[j] @ np.take(k, j, axis=pos) + np.take(b, j, axis=axis % 2) for j in range(n)])
     ctx.check(close(yb, want_y), 'tolinen.lifted_sharding:apply_output', lambda: dict(case=desc))
 
     # nn.scan over a ToLinen step (layers stacked along axis 0)
@@ -1728,7 +1729,7 @@ def run(ctx):
     run_tonnx_names(ctx, i, ctx.rng('tonnx.names', i))
   for i in ctx.indices(20 if ctx.tier == 'quick' else 80, 'tolinen.reused'):
     run_tolinen_reused(ctx, i, ctx.rng('tolinen.reused', i))
-  for i in ctx.indices(4 if ctx.tier == 'quick' else 8, 'tolinen.lifted_sharding'):
+  for i in ctx.indices(8, 'tolinen.lifted_sharding'):
     run_tolinen_lifted_sharding(ctx, i, ctx.rng('tolinen.lifted_sharding', i))
   for i in ctx.indices(8 if ctx.tier == 'quick' else 16, 'tolinen.restored_without_init'):
     run_tolinen_restored_without_init(ctx, i, ctx.rng('tolinen.restored_without_init', i))
